@@ -41,6 +41,10 @@ pub struct Case {
     /// nb only: change the data rate between TX and the windows to this value
     pub dr_between: Option<u8>,
     pub tx_done_ms: u32,
+    /// join cases: this many unanswered join attempts come first (`draw` then scripts the first of them; the
+    /// join-channel walk of the fixed plans reaches the 500 kHz channels only on later attempts)
+    #[serde(default)]
+    pub prior_joins: usize,
 }
 
 struct Obs {
@@ -95,6 +99,13 @@ fn observe_nb(c: &Case) -> Result<Obs, String> {
         core.apply(&Ev::SetDr(d));
     }
     core.apply(&Ev::Rng(if c.join { vec![0x1234, c.draw] } else { vec![c.draw] }));
+    for _ in 0..c.prior_joins {
+        for m in core.apply(&Ev::JoinCycle { rx1: None, rx2: None }) {
+            if let Resp::Panic(p) = m.resp {
+                return Err(p);
+            }
+        }
+    }
     let before = core.snap();
     let mut tx = None;
     let mut rx = vec![];
@@ -138,6 +149,11 @@ fn observe_async(c: &Case) -> Result<Obs, String> {
         core.apply(&AEv::SetDr(d));
     }
     core.apply(&AEv::Rng(if c.join { vec![0x1234, c.draw] } else { vec![c.draw] }));
+    for _ in 0..c.prior_joins {
+        if let Some(AStep { resp: AResp::Panic(p), .. }) = core.apply(&AEv::Join(Script::default())) {
+            return Err(p);
+        }
+    }
     let before = core.snap();
     let ev = if c.join { AEv::Join(Script::default()) } else { AEv::Send { confirmed: false, port: 1, len: 1, script: Script::default() } };
     let Some(st) = core.apply(&ev) else { return Err("dead".into()) };
@@ -202,6 +218,18 @@ pub fn eval(c: &Case) -> Vec<(String, String)> {
             format!("uplink on {} Hz, RX1 opened on {} Hz, paired downlink frequency is {} Hz", tx.freq, o.rx[0].freq, f),
         )),
         _ => {}
+    }
+    // --- the data rate actually used is one the channel forces (fixed plans: 125 kHz vs 500 kHz channels, join rates)
+    if rr::is_fixed(region)
+        && let Some(ch) = rr::fixed_channel_of(region, tx.freq)
+    {
+        let forced = if c.join { rr::fixed_join_dr(region, ch) } else { rr::fixed_channel_drs(region, ch) };
+        if !up_drs.iter().any(|d| forced.contains(d)) {
+            v.push((
+                format!("C10|{front}|uplink-datarate-not-the-channels|{rk}|{kind}"),
+                format!("{kind} uplink on channel {ch} ({} Hz) at SF{}/{} Hz (DR{up_drs:?}); the channel forces DR{forced:?}, which the windows have to follow", tx.freq, tx.sf, tx.bw),
+            ));
+        }
     }
     // --- RX1 data rate
     let off = o.before.rx1_dr_offset;
@@ -339,7 +367,7 @@ pub fn run(tier: Tier, replay: Option<&str>) {
         let (def_f, def_dr) = rr::rx2_default(region);
         let draws: Vec<u32> = if fixed { (0..64).collect() } else { (0..8).collect() };
         for front in fronts {
-            let base = |dev: DevCfg| Case { front: front.into(), dev, dr: None, rxparam: None, rxdelay: None, newchannel: None, dlchannel: None, redefine: None, extra: vec![], draw: 0, join: false, dr_between: None, tx_done_ms: 0 };
+            let base = |dev: DevCfg| Case { front: front.into(), dev, dr: None, rxparam: None, rxdelay: None, newchannel: None, dlchannel: None, redefine: None, extra: vec![], draw: 0, join: false, dr_between: None, tx_done_ms: 0, prior_joins: 0 };
             let abp = DevCfg::abp(region);
             // P1: data rate x RX1 offset x channel choice
             for &d in &drs {
@@ -462,6 +490,18 @@ pub fn run(tier: Tier, replay: Option<&str>) {
                     for offs in [0i32, 50] {
                         dev.offset_ms = offs;
                         cases.push(Case { join: true, draw, ..base(dev.clone()) });
+                    }
+                }
+            }
+            // P5b: the n-th join attempt after n-1 unanswered ones (fixed plans: the walk over all 72 join channels)
+            if fixed {
+                for b in [None, Some((1u8, 1usize)), Some((8, 1)), Some((2, 8))] {
+                    for draw in 0..64u32 {
+                        for prior in 1..=9usize {
+                            let mut dev = DevCfg::otaa(region);
+                            dev.bias = b;
+                            cases.push(Case { join: true, draw, prior_joins: prior, ..base(dev.clone()) });
+                        }
                     }
                 }
             }
@@ -959,6 +999,11 @@ fn w_alphabet(region: &str, nb: bool, joined: bool, otaa: bool) -> Vec<WEv> {
         let b4 = cmds::freq_bytes(fq[3] + 400_000);
         c.push(("dlchannel-0".into(), vec![0x0A, 0, b3[0], b3[1], b3[2]]));
         c.push(("dlchannel-3".into(), vec![0x0A, 3, b2[0], b2[1], b2[2]]));
+        // refused requests (frequency outside the band / zero): the pairing negotiated earlier stays in force
+        let bo = cmds::freq_bytes(fq[1]);
+        c.push(("dlchannel-0-out-of-band".into(), vec![0x0A, 0, bo[0], bo[1], bo[2]]));
+        c.push(("dlchannel-3-out-of-band".into(), vec![0x0A, 3, bo[0], bo[1], bo[2]]));
+        c.push(("dlchannel-0-zero".into(), vec![0x0A, 0, 0, 0, 0]));
         c.push(("newchannel-3".into(), vec![0x07, 3, b3[0], b3[1], b3[2], 0x50]));
         c.push(("newchannel-3-other".into(), vec![0x07, 3, b4[0], b4[1], b4[2], 0x50]));
         c.push(("newchannel-3-delete".into(), vec![0x07, 3, 0, 0, 0, 0x50]));
